@@ -6,8 +6,11 @@ judge: J_Render (every recorded render must leave the structural digest unchange
 """
 from __future__ import annotations
 
+import datetime
+import decimal
 import hashlib
 import json
+import uuid
 import os
 import subprocess
 import sys
@@ -91,6 +94,13 @@ def extra_objects():
         out[f"x.{d}.mutable_parts"] = lambda Q=Q: (lambda sub: Q.from_(t1).select(t1.a, sub).groupby(sub).orderby(sub).where(t1.b.isin(Q.from_(t2, immutable=False).select(t2.b))))(
             Q.from_(t2, immutable=False).select(fn.Max(t2.a)).as_("mx"))
         out[f"x.{d}.mutable_root"] = lambda Q=Q: Q.from_(t1, immutable=False).select(t1.a.as_("al"), fn.Count("*")).groupby(t1.a.as_("al")).orderby(t1.a.as_("al")).limit(3)
+        # temporal constants (aware / naive) where the dialect's own wrapper class formats them: SET values, selected constants, INSERT rows
+        out[f"x.{d}.temporal_values"] = lambda Q=Q: (Q.update(t1).set(t1.a, datetime.time(1, 2, 3, tzinfo=datetime.timezone.utc))
+                                                     .set(t1.b, datetime.datetime(2020, 1, 2, 3, 4, 5, tzinfo=datetime.timezone(datetime.timedelta(hours=2))))
+                                                     .set(t1.c, datetime.date(2020, 2, 29)).where(t1.d == datetime.time(4, 5, 6, 7)))
+        out[f"x.{d}.temporal_select"] = lambda Q=Q: (lambda b: b.select(b._wrapper_cls(datetime.time(1, 2, 3, tzinfo=datetime.timezone.utc)),
+                                                                       b._wrapper_cls(datetime.datetime(2020, 1, 2, tzinfo=datetime.timezone.utc)), b._wrapper_cls(uuid.UUID(int=5)),
+                                                                       b._wrapper_cls(decimal.Decimal("1.50"))))(Q.from_(t1))
         out[f"x.{d}.upsert_values"] = lambda Q=Q: Q.into(t1).insert(1, "a\\b", {"k": "v\\"}).on_conflict("a").do_update("b", "c\\d")
     return out
 
